@@ -101,7 +101,40 @@ func runC11(c *Ctx) {
 			}
 		})
 		pos := w.pos(add.Pos())
+		// a decoder of a fixed-size attribute accepts only that size: every nil return is
+		// dominated by CheckSize(…, size) == nil (possibly established inside a shared helper)
+		// or by len(value) == size
+		sizeWhy := ""
+		if dec.size >= 0 {
+			for _, r := range returnsOf(get) {
+				if len(r.Results) != 1 || !isNilConst(w.resolveLoad(r.Results[0])) {
+					continue
+				}
+				okSize := false
+				for _, f := range w.factsAt(r) {
+					if v, isNil, isNF := nilFact(f); isNF && isNil {
+						if cc, _ := callOf(v); cc != nil && cc.Call.StaticCallee() != nil && nm(cc.Call.StaticCallee()) == "CheckSize" {
+							if k, isC := constInt(cc.Call.Args[2]); isC && k == dec.size {
+								okSize = true
+							}
+						}
+					}
+					if f.Op == "==" && f.Truth {
+						for _, pair := range [][2]ssa.Value{{f.X, f.Y}, {f.Y, f.X}} {
+							if k, isC := constInt(pair[1]); isC && k == dec.size && termOf(pair[0]).Len {
+								okSize = true
+							}
+						}
+					}
+				}
+				if !okSize {
+					sizeWhy = fmt.Sprintf("GetFrom accepts at %s without the attribute's length having been checked to be exactly %d (a longer or truncated attribute decodes as if it were well-formed)", w.instrPos(r), dec.size)
+				}
+			}
+		}
 		switch {
+		case sizeWhy != "":
+			c.Bad("C11.1", "proto."+tn, "size check", pos, sizeWhy)
 		case !enc.found || !dec.found:
 			c.Bad("C11.1", "proto."+tn, "attribute type", pos, fmt.Sprintf("cannot find the attribute type written (%v) / read (%v)", enc.found, dec.found))
 		case enc.attr != dec.attr:
@@ -337,16 +370,25 @@ func runC11(c *Ctx) {
 			v  ssa.Value
 			at ssa.Instruction
 		}
+		// through unexported helpers shared by several attributes (addWord(m, t, w)): the
+		// helper's parameter is the argument at this AddTo's call of it
+		w.eachCallThrough(fn, 2, func(x *ssa.Call, resolve func(ssa.Value) ssa.Value) {
+			if cal := x.Call.StaticCallee(); cal != nil && strings.Contains(cal.String(), "encoding/binary") &&
+				(strings.HasPrefix(cal.Name(), "PutUint") || strings.HasPrefix(cal.Name(), "AppendUint")) {
+				var at ssa.Instruction = x
+				if x.Parent() != fn {
+					if top := w.topOfCallThrough(x, fn); top != nil {
+						at = top
+					}
+				}
+				written = append(written, struct {
+					v  ssa.Value
+					at ssa.Instruction
+				}{resolve(x.Call.Args[2]), at})
+			}
+		})
 		w.eachInstr(fn, func(in ssa.Instruction) {
 			switch x := in.(type) {
-			case *ssa.Call:
-				if cal := x.Call.StaticCallee(); cal != nil && strings.Contains(cal.String(), "encoding/binary") &&
-					(strings.HasPrefix(cal.Name(), "PutUint") || strings.HasPrefix(cal.Name(), "AppendUint")) {
-					written = append(written, struct {
-						v  ssa.Value
-						at ssa.Instruction
-					}{x.Call.Args[2], in})
-				}
 			case *ssa.Store:
 				if ia, ok := x.Addr.(*ssa.IndexAddr); ok {
 					if cv, isCv := x.Val.(*ssa.Convert); isCv && typeBits(cv.Type()) == 8 && typeBits(cv.X.Type()) > 8 {
